@@ -275,7 +275,7 @@ def run(ctx, build):
     lib.corr_modules(ctx, SPEC, ['registry_corr'])     # the concurrent registry: real TFTPSubServers under a scheduler shim vs the model
     R = ctx.try_runner('Tftp')
     rng = ctx.rng
-    n = 6000 if ctx.thorough else 50
+    n = 15000 if ctx.thorough else 50
     if ctx.widen:
         n *= 2
     poll = 10_000_000
